@@ -713,12 +713,14 @@ func voxelRange(blockSize, begBlock, endBlock, begVoxel, endVoxel int32) (int32,
 func (d *Data) GetMask(ctx *datastore.VersionedCtx, subvol *dvid.Subvolume) ([]byte, error) {
 	pt0 := subvol.StartPoint()
 	pt1 := subvol.EndPoint()
-	minBlockZ := pt0.Value(2) / d.BlockSize[2]
-	maxBlockZ := pt1.Value(2) / d.BlockSize[2]
-	minBlockY := pt0.Value(1) / d.BlockSize[1]
-	maxBlockY := pt1.Value(1) / d.BlockSize[1]
-	minBlockX := pt0.Value(0) / d.BlockSize[0]
-	maxBlockX := pt1.Value(0) / d.BlockSize[0]
+	// Block coordinates must be floored (not truncated toward zero) for negative voxel coordinates.
+	minBlock, maxBlock, err := subvol.BoundingChunks(d.BlockSize)
+	if err != nil {
+		return nil, err
+	}
+	minBlockZ, maxBlockZ := minBlock[2], maxBlock[2]
+	minBlockY, maxBlockY := minBlock[1], maxBlock[1]
+	minBlockX, maxBlockX := minBlock[0], maxBlock[0]
 
 	minIndex := minIndexByBlockZ(minBlockZ)
 	maxIndex := maxIndexByBlockZ(maxBlockZ)
